@@ -24,10 +24,60 @@ def folding_guards(b, blk):
     `options.url_encode_form` test (resp. of `content_type == "application/x-www-form-urlencoded"`) is cut - i.e. the
     condition holds on EVERY way into blk (an `a || b` would leave another way in)."""
     opt = ct = False
+
+    def implied_by_true(l, depth=0):
+        """(opt, ct) known to hold whenever bool local l is true: l is `a && b` computed into a variable (e.g. the result of
+        a predicate closure): every definition that can make it true is an equality with the form content type / a read
+        of the option, and sits under the other condition."""
+        if depth > 4:
+            return (False, False)
+        acc = None
+        for d in b.defs().get(l, []):
+            r = None
+            if d["kind"] == "assign" and d["stmt"]["rv"]["k"] == "use":
+                o = d["stmt"]["rv"]["op"]
+                k = op_const(o)
+                if k is not None:
+                    if const_value(k) in (0, False):
+                        continue  # cannot make it true
+                    return (False, False)
+                p_ = op_place(o)
+                if p_ is not None and "url_encode_form" in place_fields(p_):
+                    g = folding_guards(b, d["block"])
+                    r = (True, g[1])
+                elif p_ is not None and not p_["proj"]:
+                    r = implied_by_true(p_["local"], depth + 1)
+                    g = folding_guards(b, d["block"])
+                    r = (r[0] or g[0], r[1] or g[1])
+                else:
+                    return (False, False)
+            elif d["kind"] == "call" and re.search(r"PartialEq::eq$", d["term"]["callee"]):
+                t = d["term"]
+                s0, s1 = b.slice_op(t["args"][0]), b.slice_op(t["args"][1])
+                isct = "application/x-www-form-urlencoded" in (s0.const_values() + s1.const_values()) and (s0.has_field("content_type") or s1.has_field("content_type"))
+                g = folding_guards(b, d["block"])
+                r = (g[0], g[1] or isct)
+            else:
+                return (False, False)
+            acc = r if acc is None else (acc[0] and r[0], acc[1] and r[1])
+        return acc or (False, False)
+
     for a in sorted(b.live_blocks()):
         c = b.cond_of_switch(a)
         if not c:
             continue
+        if c["kind"] == "local" and b.local_ty(c["local"]) == "bool" and not getattr(b, "_fg_busy", False):
+            for s in b.succ(a):
+                tr = b.truth_of_edge(a, s)
+                if tr is not None and c.get("neg"):
+                    tr = not tr
+                if tr is True and blk not in b.reachable_avoiding_edge(0, a, s):
+                    b._fg_busy = True
+                    try:
+                        io, ic = implied_by_true(c["local"])
+                    finally:
+                        b._fg_busy = False
+                    opt, ct = opt or io, ct or ic
         is_opt = (c["kind"] == "place" and "url_encode_form" in place_fields(c["place"])) or (c["kind"] == "local" and b.slice([c["local"]]).has_field("url_encode_form") and not b.slice([c["local"]]).calls)
         is_ct = False
         ne = False
@@ -166,6 +216,12 @@ def r2(ctx):
         yield VIOL("C12-R2", "from_request_parts/unguarded-write:" + nm, "`%s` is written outside the folding guard (option guard: %s, content-type guard: %s)" % (nm, opt, ct), where=b.span_of_block(blk))
     if not bad:
         yield PASS("C12-R2", "from_request_parts/folding-confined", "%d writes to query_parameters / parts / body, all control-dependent on url_encode_form && content_type == const" % len(writes), ["%s %s" % (b.span_of_block(blk), nm) for nm, blk in writes])
+    # failures of the folding machinery (unknown charset, undecodable body) can only happen where folding happens: with
+    # folding disabled, or for any other content type, the body is hashed verbatim and nothing about it is refused
+    for eb, i_, s_ in err_sites(b, "InvalidBodyEncoding"):
+        o_, c_ = folding_guards(b, eb)
+        if not (o_ and c_):
+            yield VIOL("C12-R2", "from_request_parts/unguarded-refusal", "an InvalidBodyEncoding refusal is reachable outside the folding guard (option guard: %s, content-type guard: %s): a request that is not folded can be refused for its charset/body" % (o_, c_), where=b.span_of_block(eb))
     # parts fields written: only uri
     pw = {nm for nm, _ in writes if nm.startswith("parts")}
     if pw - {"parts.uri"}:
